@@ -61,6 +61,7 @@ def _groups(tier, seed):
         yield {'kind': 'file', 'fault': fk}
     yield {'kind': 'links'}
     yield {'kind': 'hardlink'}
+    yield {'kind': 'pipe-stop'}
     yield {'kind': 'media'}
     for mode in ('', ' dfs'):
         for where in ('top', 'sub'):
@@ -282,7 +283,7 @@ def eval_group(env, group, tier):
             tree = {n: F(data=d) for n, d in files.items()}
             tree['sub'] = D({'inner': F(data=b'NEEDLE\n')})
             core.materialise(root, tree)
-            cols = ['name', 'size', 'mode', 'sha1', 'sha256', 'line_count', 'contains(NEEDLE)', 'is_shebang']
+            cols = ['name', 'size', 'mode', 'sha1', 'sha256', 'line_count', 'contains(NEEDLE)', 'is_shebang', 'line_count + 1', 'line_count * 2', '10 - line_count']
             q = ', '.join(cols) + ' from . into list'
             clean = env.run([q], cwd=root)
             if clean.rc != 0 or clean.err:
@@ -456,6 +457,39 @@ def eval_group(env, group, tier):
                              sig=(fmt, path, o.rc))
                 finally:
                     env.rmtree(d)
+        elif kind == 'pipe-stop':
+            # once nobody reads the output the search stops: directories it would have entered later are not even tried
+            tree = {'f%02d' % i: F(i % 5) for i in range(30)}
+            for i in range(12):
+                tree['z%02d' % i] = D({'inside': F(1)})
+            tree['ok'] = D({'deep': D({'x': F(1)})})
+            core.materialise(root, tree)
+            for i in range(12):
+                os.chmod(os.path.join(root, 'z%02d' % i), 0)
+            try:
+                for frm in ('.', '. dfs', '. bfs'):
+                    for budget in list(range(0, 520, 13)):
+                        for fmt in ('lines', 'json', 'csv'):
+                            sub = ['pipe-stop', frm, budget, fmt]
+                            if only is not None and sub != only:
+                                continue
+                            q = 'name, size from %s into %s' % (frm, fmt)
+                            o = env.run([q], cwd=root, preload=True, user=NOBODY, env={'FSX_READDIR': 'sorted', 'FSX_STDOUT_BUDGET': str(budget)})
+                            named = [i for i in range(12) if ('z%02d' % i).encode() in o.err]
+                            # (dfs may meet a closed directory before the first row is written: entries sort f.. ok z..)
+                            # (json has no line ends: the program learns that the output is gone when its buffer of 1 KiB is flushed, a few directories later)
+                            # the closed directories come after `ok` and its `deep` in both orders: if the output ended before the row of `deep`,
+                            # the write that failed came before any of them was due
+                            cut_before = b'deep' not in o.out
+                            ok = not o.timeout and not o.panicked and o.rc in (0, 1) and len(o.out) <= budget
+                            if cut_before and fmt != 'json':
+                                ok = ok and not named
+                            elif cut_before:
+                                ok = ok and len(named) < 12
+                            emit(sub, ok, 'search-goes-on-after-output-closed', dict(o.brief(), query=q, budget=budget, directories_tried_afterwards=len(named)))
+            finally:
+                for i in range(12):
+                    os.chmod(os.path.join(root, 'z%02d' % i), 0o755)
         elif kind == 'pipe':
             fmt, path, n, al = group['fmt'], group['path'], group['n'], group['align']
             tree = {'f%03d' % i: F(i % 9) for i in range(n)}
